@@ -230,11 +230,19 @@ func init() {
 		Components: append(append([]string{}, e1Components...), "E2 share: seeded scheduler (harness/kernel.go) decides every interleaving of the connection goroutines at transport operations, callbacks and spliced schedule points"),
 		Assumptions: commonAssumptions,
 		Gen: func(r *Rand, tier string) *Case {
+			if r.Chance(1, 5) {
+				// E2 share: 2-4 connections run such histories over the same names
+				return genConcurrent(r, r.Range(2, 4), histOpts{extended: true, closes: true, params: true, binary: true, unknownNames: true, maxUnits: 6}, 4096)
+			}
 			c := &Case{Server: ServerCfg{Limit: smallLimit(r)}}
 			genHistory(r, c, histOpts{extended: true, closes: true, params: true, binary: true, unknownNames: true, errs: r.Chance(1, 4), maxUnits: 10})
 			return c
 		},
 		Check: func(x *Exec, c *Case) ([]Violation, bool) {
+			if c.Sched != nil {
+				viol, _ := checkConcurrent("C07", x, c, 3)
+				return viol, nameReused(c)
+			}
 			viol, _, _ := modelCheck("C07", x, c)
 			return viol, nameReused(c)
 		},
